@@ -270,6 +270,8 @@ def run(ctx):
     ctx.do(c06.r6_6)
     ctx.do(c05.r5_7)
     ctx.do(c05.r5_3b)
+    from . import c03 as _c03
+    ctx.do(_c03.r3_1_2)  # the reverse indexes every UID / key lookup goes through follow the lists
     from . import c14 as _c14
     ctx.do(_c14.r14_4)  # `*` in a SEARCH set key = the same maximum as in FETCH/STORE/COPY
     ctx.note("R15.2 unit kinds (UID vs sequence-number lists at operation boundaries) decided by C10 R10.4; bounded expansion by C06 R6.6")
